@@ -2,6 +2,7 @@ import SJ.Proofs.TypedAgreeEnum
 import SJ.Proofs.TypedAgreeKeyInt
 import SJ.Proofs.TypedAgreeAny
 import SJ.Proofs.TypedFloatAgree
+import SJ.Proofs.TypedAgree128
 /-!
 # The text leg of C16, assembled: every schema of the fragment `agreeFrag2`, every float-free non-`arbitrary_precision`
 # value outside the statement's exclusions
@@ -245,7 +246,7 @@ structure Closed (R : Schema → JV → Prop) : Prop where
 variable (ext : Spec.Program.Ext)
 
 theorem tupAgree_of_tupR (R : Schema → JV → Prop) (de : Schema → Bytes → Nat → TOut) (fv : Schema → JV → FromValue.R) :
-    ∀ (ss : List Schema) (xs : List JV), (∀ s ∈ ss, ∀ x ∈ xs, R s x → Agree1 (de s) (fv s x) (T ext x)) → TupR R ss xs →
+    ∀ (ss : List Schema) (xs : List JV), (∀ s ∈ ss, ∀ x ∈ xs, R s x → Agree1w (de s) (fv s x) (T ext x)) → TupR R ss xs →
       TupAgree ext de fv ss xs
   | [], _, _, _ => trivial
   | _ :: _, [], _, _ => trivial
@@ -293,47 +294,55 @@ theorem keyAgree_frag {env : Env} (hflt : env.flt = false) (k : KeyKind) (hk : k
     for every schema of the fragment and every value representable without `arbitrary_precision` whose floats are read back
     from `ryu`'s text (`floatsRT`), within the depth budget and admissible, the typed deserializer on the text `to_string`
     writes for the value (followed by a separator or nothing) returns exactly what `from_value` returns — and fails when it
-    fails. `hInt`: no float under a 128-bit integer target (`agree_int`); `hF64`: an integer under an `f64` target is one a
-    `Number` can hold. -/
+    fails, or (a float under a 128-bit integer target, `Agree1w`) returns with the unread input inside the number, which every
+    caller rejects. `hInt`: a float under a 128-bit integer target is written with a fraction or an exponent
+    (`int128_float_weak`); `hF64`: an integer under an `f64` target is one a `Number` can hold. -/
 theorem agree_gen {env : Env} (hflt : env.flt = false) (hapE : env.cfg.ap = false) (cfg' : FromValue.Cfg) (hap : cfg'.ap = false)
     (ext' : FromValue.Ext) (R : Schema → JV → Prop) (hR : Closed R)
     (hAny : a = true → ∀ v, R .any v → Spec.WF.shapeOK (SJ.Proofs.CanonM.specCfg env.cfg) v = true)
-    (hInt : ∀ w v, R (.int w) v → is128 w = true → ∀ b, v ≠ .num (.float b))
+    (hInt : ∀ w v, R (.int w) v → is128 w = true → ∀ b, v = .num (.float b) → floatPointed ext b = true)
     (hF64 : ∀ v, R .f64 v → SJ.Proofs.TypedFloat.IntRangeOK v) :
     ∀ (f : Nat) (s : Schema), Schema.size s ≤ f → fragP a s = true →
       ∀ (t : Nat) (v : JV), VOK v → Spec.WF.floatsRT (SJ.Proofs.CanonM.specCfg env.cfg) ext v = true → DepthOK env t v → R s v →
-      Agree1 (deTyped env f t s) (FromValue.fromValue cfg' ext' s v) (T ext v) := by
+      Agree1w (deTyped env f t s) (FromValue.fromValue cfg' ext' s v) (T ext v) := by
   intro f
   induction f with
   | zero => intro s hs; have := size_pos s; omega
   | succ f ih =>
     intro s hs hfr t v hv hF hd hr
     cases s with
-    | bool => rw [deTyped_bool]; exact agree_bool ext hext hflt cfg' hap ext' v hv
+    | bool => rw [deTyped_bool]; exact (agree_bool ext hext hflt cfg' hap ext' v hv).weak
     | int w =>
       rw [deTyped_int]
-      refine agree_int ext hext hflt cfg' hap ext' w v hv fun b hb rest pos hs => ?_
-      subst hb
       by_cases h128 : is128 w = true
-      · exact absurd rfl (hInt w _ hr h128 b)
-      · exact SJ.Proofs.TypedFloat.int_float_refused hflt hapE ext hext w h128 b (by simpa [VOK, shapeW, wfNumW] using hv)
+      · -- a 128-bit target: a float is left to the caller
+        by_cases hfl : ∃ b, v = .num (.float b)
+        · obtain ⟨b, rfl⟩ := hfl
+          intro rest pos hs
+          simp only [FromValue.fromValue, FromValue.deInt, FromValue.numberInt, hap, Bool.false_eq_true, if_false, FromValue.fail]
+          exact int128_float_weak ext hext w h128 b (by simpa [VOK, shapeW, wfNumW] using hv) (hInt w _ hr h128 b rfl) rest pos
+        · exact (agree_int ext hext hflt cfg' hap ext' w v hv fun b hb => absurd ⟨b, hb⟩ hfl).weak
+      · refine (agree_int ext hext hflt cfg' hap ext' w v hv fun b hb rest pos hs => ?_).weak
+        subst hb
+        exact SJ.Proofs.TypedFloat.int_float_refused hflt hapE ext hext w h128 b (by simpa [VOK, shapeW, wfNumW] using hv)
           (by simpa [Spec.WF.floatsRT] using hF) rest pos hs
-    | unit => rw [deTyped_unit]; exact agree_unit ext hext hflt cfg' hap ext' v hv
+    | unit => rw [deTyped_unit]; exact (agree_unit ext hext hflt cfg' hap ext' v hv).weak
     | unitStruct =>
       rw [deTyped_unitStruct]
       have := agree_unit ext hext hflt cfg' hap ext' v hv
-      simpa [FromValue.fromValue] using this
-    | char => rw [deTyped_char]; exact agree_char ext hext hflt cfg' hap ext' v hv
-    | string => rw [deTyped_string]; exact agree_string ext hext hflt cfg' hap ext' v hv
+      exact Agree1.weak (by simpa [FromValue.fromValue] using this)
+    | char => rw [deTyped_char]; exact (agree_char ext hext hflt cfg' hap ext' v hv).weak
+    | string => rw [deTyped_string]; exact (agree_string ext hext hflt cfg' hap ext' v hv).weak
     | bytes =>
       rw [deTyped_bytes]
-      refine agree_bytes ext hext hflt cfg' hap ext' t v hv hd fun xs hxs x hx b hb rest pos hs => ?_
+      refine Agree1.weak (agree_bytes ext hext hflt cfg' hap ext' t v hv hd fun xs hxs x hx b hb rest pos hs => ?_)
       subst hxs; subst hb
       exact SJ.Proofs.TypedFloat.int_float_refused hflt hapE ext hext .u8 (by decide) b
         (by simpa [VOK, shapeW, wfNumW] using vok_elem xs _ hx hv)
         (by simpa [Spec.WF.floatsRT] using frt_elem _ _ xs _ hx (by simpa [Spec.WF.floatsRT] using hF)) rest pos hs
     | ignored =>
       rw [deTyped_ignored]
+      refine Agree1.weak ?_
       intro rest pos hsep
       simp only [FromValue.fromValue]
       rw [ignoreValue_T ext hext env hflt v hv rest pos hsep]
@@ -343,16 +352,16 @@ theorem agree_gen {env : Env} (hflt : env.flt = false) (hapE : env.cfg.ap = fals
       have := ih s' (by simp only [Schema.size] at hs; omega) (by simpa [fragP] using hfr) t v hv hF hd (hR.newtype s' v hr)
       simpa [FromValue.fromValue] using this
     | option s' =>
-      exact agree_option ext hflt cfg' hap ext' s' f t v hv
+      exact agree_option_w ext hflt cfg' hap ext' s' f t v hv
         (fun hnn => ih s' (by simp only [Schema.size] at hs; omega) (by simpa [fragP] using hfr) t v hv hF hd (hR.option s' v hr hnn))
         (T_head ext hext v hv)
     | seq s' =>
-      refine agree_seq ext hext hflt cfg' hap ext' s' f t v hv hd fun xs hxs x hx => ?_
+      refine Agree1.weak (agree_seq ext hext hflt cfg' hap ext' s' f t v hv hd fun xs hxs x hx => ?_)
       subst hxs
       exact ih s' (by simp only [Schema.size] at hs; omega) (by simpa [fragP] using hfr) (t + 1) x (vok_elem xs x hx hv) (frt_elem _ _ xs x hx (by simpa [Spec.WF.floatsRT] using hF))
         (depthOK_elem t xs x hx hd) (hR.seq s' xs hr x hx)
     | tuple ss =>
-      refine agree_tuple ext hext hflt cfg' hap ext' ss f t v hv hd fun xs hxs => ?_
+      refine Agree1.weak (agree_tuple ext hext hflt cfg' hap ext' ss f t v hv hd fun xs hxs => ?_)
       subst hxs
       refine tupAgree_of_tupR ext R _ _ ss xs (fun s' hs' x hx hrx => ?_) (hR.tuple ss xs hr)
       have hsz := size_mem_list ss s' hs'
@@ -360,7 +369,7 @@ theorem agree_gen {env : Env} (hflt : env.flt = false) (hapE : env.cfg.ap = fals
         (vok_elem xs x hx hv) (frt_elem _ _ xs x hx (by simpa [Spec.WF.floatsRT] using hF)) (depthOK_elem t xs x hx hd) hrx
     | map k s' =>
       have hfr' : keyFrag k = true ∧ fragP a s' = true := by simpa [fragP] using hfr
-      refine agree_map ext hext hflt cfg' hap ext' k (keyAgree_frag ext hext hflt k hfr'.1) s' f t v hv hd fun kvs hkvs kv hx => ?_
+      refine Agree1.weak (agree_map ext hext hflt cfg' hap ext' k (keyAgree_frag ext hext hflt k hfr'.1) s' f t v hv hd fun kvs hkvs kv hx => ?_)
       subst hkvs
       exact ih s' (by simp only [Schema.size] at hs; omega) hfr'.2 (t + 1) kv.2
         (vok_member kvs kv hx hv).2 (frt_member _ _ kvs kv hx (by simpa [Spec.WF.floatsRT] using hF)) (depthOK_member t kvs kv hx hd) (hR.map k s' kvs hr kv hx)
@@ -371,7 +380,7 @@ theorem agree_gen {env : Env} (hflt : env.flt = false) (hapE : env.cfg.ap = fals
         obtain ⟨fld, hfld, rfl⟩ := List.mem_map.mp hs'
         have := size_mem_fields fs fld hfld
         simp only [Schema.size] at hs; omega
-      refine agree_struct ext hext hflt cfg' hap ext' fs deny f t v hv hd ?_ ?_
+      refine Agree1.weak (agree_struct ext hext hflt cfg' hap ext' fs deny f t v hv hd ?_ ?_)
       · intro xs hxs
         subst hxs
         refine tupAgree_of_tupR ext R _ _ _ xs (fun s' hs' x hx hrx => ?_) (hR.structArr fs deny xs hr)
@@ -384,7 +393,7 @@ theorem agree_gen {env : Env} (hflt : env.flt = false) (hapE : env.cfg.ap = fals
           (depthOK_member t kvs kv hx hd) (hR.structObj fs deny kvs hr kv hx i nm s' hni hfi)
     | enum_ vs =>
       have hfr' : fragPVariants a vs = true := by simpa [fragP] using hfr
-      refine agree_enum ext hext hflt cfg' hap ext' vs f t v hv hd ?_ ?_
+      refine Agree1.weak (agree_enum ext hext hflt cfg' hap ext' vs f t v hv hd ?_ ?_)
       · intro k x kvs hkvs sh hmem
         subst hkvs
         have hshf := agreeFrag2_mem_variants vs k sh hmem hfr'
@@ -403,7 +412,7 @@ theorem agree_gen {env : Env} (hflt : env.flt = false) (hapE : env.cfg.ap = fals
         cases sh with
         | unit =>
           simp only [dePayload, payloadFV]
-          exact agree_unit ext hext hflt cfg' hap ext' x hvk
+          exact (agree_unit ext hext hflt cfg' hap ext' x hvk).weak
         | newtype s' =>
           simp only [dePayload, payloadFV]
           exact ih s' (hszs s' (by simp [shapeSchemas])) (by simpa [fragPShape] using hshf) (t + 1) x hvk hfk hdk hrsh
@@ -415,7 +424,7 @@ theorem agree_gen {env : Env} (hflt : env.flt = false) (hapE : env.cfg.ap = fals
             rw [deTyped_tuple]; rfl
           rw [this]
           simp only [payloadFV]
-          refine agree_tuple ext hext hflt cfg' hap ext' ss f (t + 1) x hvk hdk fun xs hxs => ?_
+          refine Agree1.weak (agree_tuple ext hext hflt cfg' hap ext' ss f (t + 1) x hvk hdk fun xs hxs => ?_)
           subst hxs
           refine tupAgree_of_tupR ext R _ _ ss xs (fun s' hs' x' hx' hrx => ?_) (hR.tuple ss xs hrsh)
           exact ih s' (hszs s' (by simpa [shapeSchemas] using hs')) (agreeFrag2_mem ss s' hs' hfl) (t + 1 + 1) x'
@@ -426,7 +435,7 @@ theorem agree_gen {env : Env} (hflt : env.flt = false) (hapE : env.cfg.ap = fals
             rw [deTyped_struct]; rfl
           rw [this]
           simp only [payloadFV]
-          refine agree_struct ext hext hflt cfg' hap ext' fs false f (t + 1) x hvk hdk ?_ ?_
+          refine Agree1.weak (agree_struct ext hext hflt cfg' hap ext' fs false f (t + 1) x hvk hdk ?_ ?_)
           · intro xs hxs
             subst hxs
             refine tupAgree_of_tupR ext R _ _ _ xs (fun s' hs' x' hx' hrx => ?_) (hR.structArr fs false xs hrsh)
@@ -444,10 +453,10 @@ theorem agree_gen {env : Env} (hflt : env.flt = false) (hapE : env.cfg.ap = fals
           (fun fs hfs xs => hR.enumExcl vs k x hr fs (hfs ▸ hmem) xs)
     | any =>
       have ha : a = true := by simpa [fragP] using hfr
-      exact agree_any ext hext hflt cfg' hap ext' f t v hv hd (hAny ha v hr) hF
+      exact (agree_any ext hext hflt cfg' hap ext' f t v hv hd (hAny ha v hr) hF).weak
     | f64 =>
       rw [deTyped_f64]
-      exact SJ.Proofs.TypedFloat.agree_f64 hflt hapE cfg' hap ext' ext hext v hv hF (hF64 v hr)
+      exact (SJ.Proofs.TypedFloat.agree_f64 hflt hapE cfg' hap ext' ext hext v hv hF (hF64 v hr)).weak
     | f32 => simp [fragP] at hfr
 
 /-! ## the instance of C16: no struct variant written as an array (`JV.hasArrayPayload` over the schema's struct-variant names) -/
@@ -479,36 +488,36 @@ theorem shapeOK_member (c : Spec.Canon.Cfg) : ∀ (kvs : List (Bytes × JV)) (kv
 
 /-- C16's admissibility: the struct-variant names of the schema are among `names`, the value has no single-key object
     `{name: [...]}` for one of them, it is a value the build can hold (`shapeOK`: a `Value` target needs the keys in
-    the map's order), and no float meets a 128-bit integer target (stated coarsely: the schema has no 128-bit integer
-    target, or the value has no float) -/
+    the map's order), and a float that may meet a 128-bit integer target is written with a fraction or an exponent (stated
+    coarsely: the schema has no 128-bit integer target, or every float of the value is `floatPointed`) -/
 def RC16 (names : List Bytes) (c : Spec.Canon.Cfg) (s : Schema) (v : JV) : Prop :=
   (∀ n ∈ s.structVariantNames, n ∈ names) ∧ JV.hasArrayPayload names v = false ∧ Spec.WF.shapeOK c v = true ∧
-    (has128 s = false ∨ Spec.WF.noFloat v = true)
+    (has128 s = false ∨ floatsPointed ext v = true)
 
 omit hext in
-theorem closed_RC16 (names : List Bytes) (c : Spec.Canon.Cfg) : Closed (RC16 names c) where
+theorem closed_RC16 (names : List Bytes) (c : Spec.Canon.Cfg) : Closed (RC16 ext names c) where
   option := fun s v h _ => ⟨by simpa [Schema.structVariantNames] using h.1, h.2.1, h.2.2.1, by simpa [has128] using h.2.2.2⟩
   newtype := fun s v h => ⟨by simpa [Schema.structVariantNames] using h.1, h.2.1, h.2.2.1, by simpa [has128] using h.2.2.2⟩
   seq := fun s xs h x hx => ⟨by simpa [Schema.structVariantNames] using h.1,
     hap_elem names xs x hx (by simpa [JV.hasArrayPayload] using h.2.1),
     shapeOK_elem c xs x hx (by simpa [Spec.WF.shapeOK] using h.2.2.1),
-    h.2.2.2.imp (by simp [has128]) (fun hn => noFloat_elem xs x hx (by simpa [Spec.WF.noFloat] using hn))⟩
+    h.2.2.2.imp (by simp [has128]) (fun hn => fpt_elem ext xs x hx (by simpa [floatsPointed] using hn))⟩
   tuple := fun ss xs h => tupR_of_all _ ss xs fun s hs x hx =>
     ⟨fun n hn => h.1 n (by simp only [Schema.structVariantNames]; exact svn_mem_list ss s hs n hn),
      hap_elem names xs x hx (by simpa [JV.hasArrayPayload] using h.2.1),
      shapeOK_elem c xs x hx (by simpa [Spec.WF.shapeOK] using h.2.2.1),
      h.2.2.2.imp (fun h8 => has128_mem ss s hs (by simpa [has128] using h8))
-       (fun hn => noFloat_elem xs x hx (by simpa [Spec.WF.noFloat] using hn))⟩
+       (fun hn => fpt_elem ext xs x hx (by simpa [floatsPointed] using hn))⟩
   map := fun k s kvs h kv hx => ⟨by simpa [Schema.structVariantNames] using h.1,
     hap_member names kvs kv hx (hap_obj names kvs h.2.1),
     shapeOK_member c kvs kv hx (by have := h.2.2.1; simp only [Spec.WF.shapeOK, Bool.and_eq_true] at this; exact this.2),
-    h.2.2.2.imp (by simp [has128]) (fun hn => noFloat_member kvs kv hx (by simpa [Spec.WF.noFloat] using hn))⟩
+    h.2.2.2.imp (by simp [has128]) (fun hn => fpt_member ext kvs kv hx (by simpa [floatsPointed] using hn))⟩
   structArr := fun fs d xs h => tupR_of_all _ _ xs fun s hs x hx =>
     ⟨fun n hn => h.1 n (by simp only [Schema.structVariantNames]; exact svn_mem_fields fs s hs n hn),
      hap_elem names xs x hx (by simpa [JV.hasArrayPayload] using h.2.1),
      shapeOK_elem c xs x hx (by simpa [Spec.WF.shapeOK] using h.2.2.1),
      h.2.2.2.imp (fun h8 => has128_mem_fields fs s hs (by simpa [has128] using h8))
-       (fun hn => noFloat_elem xs x hx (by simpa [Spec.WF.noFloat] using hn))⟩
+       (fun hn => fpt_elem ext xs x hx (by simpa [floatsPointed] using hn))⟩
   structObj := fun fs d kvs h kv hx i nm s _ hfi =>
     ⟨fun n hn => h.1 n (by
         simp only [Schema.structVariantNames]
@@ -517,7 +526,7 @@ theorem closed_RC16 (names : List Bytes) (c : Spec.Canon.Cfg) : Closed (RC16 nam
      shapeOK_member c kvs kv hx (by have := h.2.2.1; simp only [Spec.WF.shapeOK, Bool.and_eq_true] at this; exact this.2),
      h.2.2.2.imp (fun h8 => has128_mem_fields fs s (List.mem_map.mpr ⟨(nm, s), List.mem_of_getElem? hfi, rfl⟩)
          (by simpa [has128] using h8))
-       (fun hn => noFloat_member kvs kv hx (by simpa [Spec.WF.noFloat] using hn))⟩
+       (fun hn => fpt_member ext kvs kv hx (by simpa [floatsPointed] using hn))⟩
   enumPayload := fun vs k x kvs h sh hmem => by
     have hsub : ∀ n ∈ VariantShape.svn k sh, n ∈ names :=
       fun n hn => h.1 n (by simp only [Schema.structVariantNames]; exact svn_mem_variants vs k sh hmem n hn)
@@ -525,9 +534,9 @@ theorem closed_RC16 (names : List Bytes) (c : Spec.Canon.Cfg) : Closed (RC16 nam
     have hsx : Spec.WF.shapeOK c x = true :=
       shapeOK_member c ((k, x) :: kvs) (k, x) (by simp) (by
         have := h.2.2.1; simp only [Spec.WF.shapeOK, Bool.and_eq_true] at this; exact this.2)
-    have h8 : has128Shape sh = false ∨ Spec.WF.noFloat x = true :=
+    have h8 : has128Shape sh = false ∨ floatsPointed ext x = true :=
       h.2.2.2.imp (fun h8 => has128_mem_variants vs k sh hmem (by simpa [has128] using h8))
-        (fun hn => noFloat_member ((k, x) :: kvs) (k, x) (by simp) (by simpa [Spec.WF.noFloat] using hn))
+        (fun hn => fpt_member ext ((k, x) :: kvs) (k, x) (by simp) (by simpa [floatsPointed] using hn))
     cases sh with
     | unit => trivial
     | newtype s => exact ⟨by simpa [VariantShape.svn] using hsub, hx, hsx, by simpa [has128Shape] using h8⟩
@@ -565,15 +574,15 @@ theorem agree_all {env : Env} (hflt : env.flt = false) (hapE : env.cfg.ap = fals
     ∀ (f : Nat) (s : Schema), Schema.size s ≤ f → fragP a s = true → (∀ n ∈ s.structVariantNames, n ∈ names) →
       ∀ (t : Nat) (v : JV), VOK v → Spec.WF.floatsRT (SJ.Proofs.CanonM.specCfg env.cfg) ext v = true → DepthOK env t v →
       JV.hasArrayPayload names v = false →
-      Spec.WF.shapeOK (SJ.Proofs.CanonM.specCfg env.cfg) v = true → (has128 s = false ∨ Spec.WF.noFloat v = true) →
-      Agree1 (deTyped env f t s) (FromValue.fromValue cfg' ext' s v) (T ext v) :=
+      Spec.WF.shapeOK (SJ.Proofs.CanonM.specCfg env.cfg) v = true → (has128 s = false ∨ floatsPointed ext v = true) →
+      Agree1w (deTyped env f t s) (FromValue.fromValue cfg' ext' s v) (T ext v) :=
   fun f s hs hfr hsub t v hv hF hd hnap hsh h8 =>
-    agree_gen ext hext hflt hapE cfg' hap ext' (RC16 names _) (closed_RC16 names _) (fun _ v h => h.2.2.1)
+    agree_gen ext hext hflt hapE cfg' hap ext' (RC16 ext names _) (closed_RC16 ext names _) (fun _ v h => h.2.2.1)
       (fun w v h h128 b hb => by
         subst hb
         rcases h.2.2.2 with h8 | hn
         · simp only [has128] at h8; rw [h128] at h8; cases h8
-        · simp [Spec.WF.noFloat] at hn)
+        · simpa [floatsPointed] using hn)
       (fun v h => intRangeOK_of_shapeOK _ v h.2.2.1) f s hs hfr t v hv hF hd ⟨hsub, hnap, hsh, h8⟩
 
 end SJ.Proofs.Typed
